@@ -520,7 +520,10 @@ regenerated from the current source on every run, are the ones the model was wri
 any edit to one of them makes this obligation fail and starts a search for a failing input. -/
 theorem code_matches_model :
     Gen.Client.send =
-      ["if len(reqs) > 1 { c.groupMu.Lock() defer c.groupMu.Unlock() } else { c.groupMu.RLock() defer c.groupMu.RUnlock() }",
+      ["if len(reqs) == 0 { return }",
+      "c.groupOnce.Do(func() { c.groupSem = make(chan struct{}, 1) })",
+      "select { case c.groupSem <- struct{}{}: case <-c.quit: for _, req := range reqs { req.SetResponse(newError(backendExited)) } return case <-reqs[0].abort: for _, req := range reqs { req.SetResponse(newError(backendExited)) } return }",
+      "defer func() { <-c.groupSem }()",
       "for _, req := range reqs { c.send(req) }"] ∧
     Gen.Client.sendOne =
       ["c.sendMu.RLock()",
@@ -554,6 +557,11 @@ theorem code_matches_model :
       ["for { resp, err := c.dec.Decode() if err != nil { if err != io.EOF && !strings.Contains(err.Error(), \"use of closed network connection\") { c.logger.Warnf(\"loop read exit: %v\", err) } return } verifPause(\"client.read.pair\", c) var req *simpleRequest select { case req = <-c.processingReqs: case <-c.quit: return } c.handleResp(req, resp) }"] ∧
     Gen.Client.drainRequests =
       ["for { select { case req := <-c.pendingReqs: req.SetResponse(newError(backendExited)) case req := <-c.processingReqs: req.SetResponse(newError(backendExited)) default: return } }"] ∧
+    Gen.Client.isValid =
+      ["b := r.body",
+      "if b.Type != Array || len(b.Array) == 0 { return }",
+      "for _, v := range b.Array { if v.Type != BulkString || v.Text == nil { return } }",
+      "return true"] ∧
     Gen.Client.rawSetResponse =
       ["r.finishedAt = time.Now()",
       "r.resp = v",
@@ -573,7 +581,7 @@ theorem code_matches_model :
     Gen.Client.sumChildDone =
       ["wait := r.childWait.Dec()",
       "if wait == 0 { r.setResponse() }"] := by
-  refine ⟨rfl, rfl, rfl, rfl, rfl, rfl, rfl, rfl, rfl, rfl, rfl, rfl⟩
+  refine ⟨rfl, rfl, rfl, rfl, rfl, rfl, rfl, rfl, rfl, rfl, rfl, rfl, rfl⟩
 
 end SamVerif.Props.C02
 
